@@ -555,6 +555,7 @@ func (r *run) c15Body(g *gen.G, v knxnet.ServicePackable) {
 		r.violation("size-panics", op, "")
 		return
 	}
+	r.c15Parts(g, op, serviceParts(v)...)
 	class, written, detail := packInto(size, v.Pack, g.R)
 	if class != "ok" {
 		r.emit(op, class)
@@ -579,11 +580,93 @@ func (r *run) c15Body(g *gen.G, v knxnet.ServicePackable) {
 	}
 }
 
+// sized is every sub-structure with its own Size()/Pack(): each must keep the contract on its own,
+// a frame-level total can hide a sub-structure that writes past what it reports (its neighbour
+// then overwrites the excess)
+type sized interface {
+	Size() uint
+	Pack([]byte)
+}
+
+func (r *run) c15Parts(g *gen.G, what string, parts ...sized) {
+	for _, p := range parts {
+		if p == nil {
+			continue
+		}
+		name := fmt.Sprintf("%T", p)
+		var size uint
+		ok := func() (ok bool) {
+			defer func() { ok = recover() == nil }()
+			size = p.Size()
+			return
+		}()
+		if !ok {
+			r.violation("part-size-panics", what, name)
+			continue
+		}
+		class, _, detail := packInto(size, p.Pack, g.R)
+		r.classes["part "+name+"->"+class]++
+		if class != "ok" {
+			r.violation("part-pack-"+class, what, name+" with Size() "+fmt.Sprint(size)+": "+detail)
+		}
+	}
+}
+
+func ldataParts(l *cemi.LData) []sized {
+	out := []sized{l.Info, l}
+	switch d := l.Data.(type) {
+	case *cemi.AppData:
+		out = append(out, d)
+	case *cemi.ControlData:
+		out = append(out, d)
+	}
+	return out
+}
+
+func cemiParts(m cemi.Message) []sized {
+	switch m := m.(type) {
+	case *cemi.LDataReq:
+		return ldataParts(&m.LData)
+	case *cemi.LDataCon:
+		return ldataParts(&m.LData)
+	case *cemi.LDataInd:
+		return ldataParts(&m.LData)
+	}
+	return nil
+}
+
+func serviceParts(v knxnet.ServicePackable) []sized {
+	switch v := v.(type) {
+	case *knxnet.SearchReq:
+		return []sized{&v.HostInfo}
+	case *knxnet.DescriptionReq:
+		return []sized{&v.HostInfo}
+	case *knxnet.SearchRes:
+		return []sized{&v.Control, &v.DescriptionB.DeviceHardware, &v.DescriptionB.SupportedServices}
+	case *knxnet.DescriptionRes:
+		return []sized{&v.DeviceHardware, &v.SupportedServices}
+	case *knxnet.ConnReq:
+		return []sized{&v.Control, &v.Tunnel}
+	case *knxnet.ConnRes:
+		return []sized{&v.Control}
+	case *knxnet.ConnStateReq:
+		return []sized{&v.Control}
+	case *knxnet.DiscReq:
+		return []sized{&v.Control}
+	case *knxnet.TunnelReq:
+		return cemiParts(v.Payload)
+	case *knxnet.RoutingInd:
+		return cemiParts(v.Payload)
+	}
+	return nil
+}
+
 func (r *run) c15Cemi(g *gen.G, m cemi.Message) {
 	toks := ktext.Join(ktext.Cemi(m))
 	r.distinct[toks] = true
 	op := "encc " + toks
 	size := cemi.Size(m)
+	r.c15Parts(g, op, cemiParts(m)...)
 	class, written, detail := packInto(size, func(b []byte) { cemi.Pack(b, m) }, g.R)
 	if class != "ok" {
 		r.emit(op, class)
@@ -883,6 +966,39 @@ func (r *run) c18Parse(group bool, text string, want int, emit bool) {
 
 func (r *run) c18(g *gen.G, budget int) {
 	thorough := budget >= 400000
+	// 0. the constructors on their whole argument range (each component an arbitrary octet): every
+	// component lands in its bit field, excess bits are ignored
+	{
+		chk := func(op string, got, want int, what string) {
+			r.emit(op, fmt.Sprint(got))
+			r.distinct[op] = true
+			if got != want {
+				r.violation("constructor-"+what, op, fmt.Sprintf("documented value %d, the constructor returned %d", want, got))
+			}
+		}
+		addrOps := func(a, b, c int) {
+			chk(fmt.Sprintf("ia3 %d %d %d", a, b, c), int(cemi.NewIndividualAddr3(uint8(a), uint8(b), uint8(c))), (a%16)*4096+(b%16)*256+c, "individual-3")
+			chk(fmt.Sprintf("ga3 %d %d %d", a, b, c), int(cemi.NewGroupAddr3(uint8(a), uint8(b), uint8(c))), (a%32)*2048+(b%8)*256+c, "group-3")
+			chk(fmt.Sprintf("ia2 %d %d", a, b), int(cemi.NewIndividualAddr2(uint8(a), uint8(b))), a*256+b, "individual-2")
+			w := b*256 + c
+			chk(fmt.Sprintf("ga2 %d %d", a, w), int(cemi.NewGroupAddr2(uint8(a), uint16(w))), (a%32)*2048+w%2048, "group-2")
+		}
+		corners := []int{0, 1, 7, 8, 15, 16, 31, 32, 127, 128, 254, 255}
+		for _, a := range corners {
+			for _, b := range corners {
+				for _, c := range corners {
+					addrOps(a, b, c)
+				}
+			}
+		}
+		n := 2000
+		if thorough {
+			n = 60000
+		}
+		for i := 0; i < n; i++ {
+			addrOps(g.R.Intn(256), g.R.Intn(256), g.R.Intn(256))
+		}
+	}
 	// 1. round trip of all 65535 non-zero addresses of both kinds (oracle on every one; the
 	// correspondence stream carries every k-th)
 	stride := 1
